@@ -80,6 +80,10 @@ def record(fn, locs):
     for k, i in locs.items():
         inv[i] = k
     old = sys.gettrace()
+    # CPython 3.12 arms per-opcode events only at the sys.settrace call that *follows* the first
+    # `f_trace_opcodes = True` of the interpreter: without this line the first recording of a process
+    # sees no event at all (and an empty trace is a trace of any `loop`)
+    sys._getframe().f_trace_opcodes = True
     sys.settrace(tr)
     try:
         fn()
